@@ -166,10 +166,14 @@ def run(chk):
                    "phase_order_matches_source (table regenerated from the source)"]
     chk.partial += ["signal delivery inside C calls (queue.get, join) is represented by 'interrupt at any control point' in "
                     "the plan model but can only be forced at Python-level call boundaries on the real interpreter",
-                    "the stateful phase is covered by real runs and the reference automaton only"]
+                    "the stateful phase: suite bracket proved on the thread model (stateful_suites_bracketed); scenario events inside a suite are Hypothesis-driven and covered by real runs and the reference automaton"]
     for _ in E.consumer_correspondence(chk, variant, chk.budget(200, 2500)):
         pass
     for _ in E.worker_correspondence(chk, chk.budget(80, 1000)):
+        pass
+    for _ in E.stateful_thread_correspondence(chk, chk.budget(80, 1000)):
+        pass
+    for _ in E.stateful_consumer_correspondence(chk, chk.budget(25, 300)):
         pass
     limit_probe(chk)
     ki_probes(chk)
